@@ -276,6 +276,27 @@ func (m *Master) DropStream() {
 	}
 }
 
+// LoseWhileDisconnected drops the stream and, in the same instant, makes the task's agent unreachable:
+// the master-generated TASK_LOST finds no subscription and is never sent again (only agents retry
+// updates). The task stays known to the master as lost, so the implicit reconciliation of the next
+// subscription answers TASK_LOST with REASON_RECONCILIATION - the only report the framework ever gets.
+func (m *Master) LoseWhileDisconnected(id string) {
+	m.mu.Lock()
+	defer m.mu.Unlock()
+	t := m.tasks[id]
+	if t == nil {
+		return
+	}
+	if m.events != nil {
+		m.rec("note", "DROP_STREAM", "", "", 0, nil)
+		close(m.events)
+		m.events = nil
+		m.streamGen++
+	}
+	t.Mesos = "TASK_LOST"
+	m.rec("note", "LOST_WHILE_DISCONNECTED", t.ID, t.AgentID, 0, nil)
+}
+
 func (m *Master) send(ev *scheduler.Event) bool {
 	// caller holds m.mu
 	if m.events == nil {
